@@ -18,6 +18,10 @@ CLAIMS = {
         text="Bounded stand-in on the real DFA::minimize: for every automaton produced from the grammar corpus (all trees <= 4/5 nodes + random), language preserved (product search), every state reachable and live, state count equals that of the canonical minimal automaton; within-word automata likewise.",
         note="No function of do_minimize is under a Verus contract yet; nothing here is counted as proved.",
         design="§7 C03", tech="bounded exhaustive comparison against an independent Moore minimisation (stand-in; Verus contracts on the helpers planned)", cat="exploration"),
+    "C04": dict(
+        text="Kani proves the per-shell index base constants (bash 0, fish 1, zsh 1, pwsh 0) on the extracted items. Everything else is a labelled bounded stand-in on the real code over the grammar corpus x 4 shells: the LookupTables every emitter prints (literal list longest-first with ids from the shell's base, match tables, per-level completion tables, command ids, within-word automaton ids, feature flags) are recomputed independently from the automaton and compared; within-word automata grouped by isomorphic_to/shape_hash must have equal printed tables; for bash the emitted TEXT is read back with bash's own syntax (function blocks, double-quoted literal arrays, associative-array initialisers) and must equal those tables, with one command function per id holding the command verbatim, the start state and the `complete` registration.",
+        note="Not a proof beyond the constants. The text of the fish/zsh/pwsh emitters is not decoded (those shells are not installed and their printers are not under contract): a change confined to those printers is outside what this check detects.",
+        design="§7 C04", tech="Kani on extracted constants; bounded recomputation of the tables from the automaton and decoding of the emitted bash text (stand-in)", cat="exploration"),
     "C06": dict(
         text="Verus proves panic-freedom (unreachable!/overflow/underflow obligations) of dfa::diagnostic_display_input for every Inp, of the HumanSpan accessors under span well-formedness, and of RegexInput::is_star_subword under its precondition. Process-level behaviour is checked by labelled bounded stand-ins: the built binary on planted-mistake grammars and structure-aware mutations (exit 0+script or 1+diagnostic, destination untouched), and no panic of the library pipeline on the grammar corpus.",
         note="Termination/stack depth unverified; nom parser not under contract; CLI runs are a bounded sample, not a proof.",
@@ -54,7 +58,6 @@ CLAIMS = {
 
 NA = {
     "C01": "behaviour of the emitted bash text inside a real bash: no Rust function contract can express it without a hand-written model of bash (a different family); the Rust-side facts it relies on are C02/C04/C09",
-    "C04": "not built yet in this session (tables/getters contracts and emitted-table decoding planned, DESIGN §7 C04)",
     "C05": "the parser is a tower of nom combinators (generic closures capturing &mut arena) that Verus rejects; a print/parse round trip needs an unbounded inverse argument out of Kani's reach",
     "C10": "a 2-run statement over whole processes incl. hasher seeding; with iteration order modelled as a function it is a triviality of safe Rust, modelled as arbitrary it is unprovable although true (hashbrown 0.13 without runtime-rng)",
     "C12": "the deciding logic is the emitted shell loop executed by the shell; its Rust-side precondition (literals by decreasing length) belongs to C04",
